@@ -7,3 +7,4 @@ CHECK_DEADLOCK FALSE
 INVARIANT EnumInv
 INVARIANT UpDownInv
 INVARIANT SpecializeInv
+INVARIANT DualityInv
